@@ -71,8 +71,20 @@ def check_names(idx: Index, rep: Report) -> None:
     evcfg = CFG(ev.node)
     strip_stmts = [n for n in walk_local(ev.node) if isinstance(n, (ast.If, ast.While)) and "_VALUE_NAME_SUFFIX_PATTERN.search" in unparse(n.test)]
     strip_rets = [n for n in walk_local(ev.node) if isinstance(n, ast.Return) and n.value is not None and re.search(r"\[:.*_VALUE_NAME_SUFFIX_PATTERN\.search\(.*\)\.start\(\)\]", resolved_text(evcfg, n.value, evcfg.node_of(n)))]
-    if not strip_stmts and not strip_rets:
+    # `prefix, sep, suffix = name.rpartition("_"); if sep and suffix.isdigit(): return prefix` strips ONE `_<digits>` group
+    rpart = None
+    for n_ in walk_local(ev.node):
+        if isinstance(n_, ast.Assign) and isinstance(n_.value, ast.Call) and call_attr(n_.value) in ("rpartition", "rsplit") and n_.value.args and isinstance(n_.value.args[0], ast.Constant) and n_.value.args[0].value == "_" and isinstance(n_.targets[0], ast.Tuple):
+            names_ = [unparse(e_) for e_ in n_.targets[0].elts]
+            sfx = names_[-1]
+            pre = names_[0]
+            if any(isinstance(r_, ast.Return) and unparse(r_.value) == pre and any(p_ and unparse(t_) in (f"{sfx}.isdigit()", f"{sfx}.isdecimal()", f"{sfx}.isnumeric()") for t_, p_ in guard_facts(ev.node, r_)) for r_ in walk_local(ev.node) if isinstance(r_, ast.Return) and r_.value is not None):
+                rpart = n_
+    if not strip_stmts and not strip_rets and rpart is None:
         raise AnalysisError(f"{ev.fq}: suffix stripping via _VALUE_NAME_SUFFIX_PATTERN.search not found")
+    if rpart is not None and not strip_stmts and not strip_rets:
+        in_loop = any(isinstance(w_, ast.While) and any(x is rpart for x in ast.walk(w_)) for w_ in walk_local(ev.node))
+        suf_pat, suf_fl = (r"((?:_\d+)+)$" if in_loop else r"(_\d+)$"), re.ASCII
     fixpoint = any(isinstance(n, ast.While) and "_VALUE_NAME_SUFFIX_PATTERN.search" in resolved_text(evcfg, n.test, evcfg.node_of(n.test)) for n in walk_local(ev.node))
     sp = suf_pat
     if not sp.endswith("$"):
